@@ -144,6 +144,7 @@ func vhC16Session() {
 	msgs := vhC16Messages()
 	want := ""      // concatenation of encodings of successful Sends
 	failedAt := -1  // op index at which the injected failure surfaced
+	wantPre := ""
 	k := verifParam("K", 3)
 	for op := 0; op < k; op++ {
 		logBefore := len(rec.log)
@@ -166,14 +167,19 @@ func vhC16Session() {
 		}
 		if injected {
 			verifAssert(opErr == vhErrIO, "C16/Session/injected-error-returned-by-the-call-where-it-happened")
+			if failedAt < 0 {
+				wantPre = want // what had been sent completely when the fault hit
+			}
 			failedAt = op
 			verifCover("C16/Session/failure-surfaced")
-			break
+			// the caller may keep using the session (the fault was transient): the protocol
+			// rules still apply to what follows
+			continue
 		}
 		verifAssert(opErr == nil, "C16/Session/no-error-without-failure")
 		if isSend {
 			want += enc
-		} else {
+		} else if failedAt < 0 {
 			// Flush pushes everything sent so far: the last event in the log is a successful flush
 			// that follows the last write (or nothing was ever written and the upgrade flush happened)
 			lastWrite, lastFlush := -1, -1
@@ -219,7 +225,7 @@ func vhC16Session() {
 	if failedAt < 0 {
 		verifAssert(body == want, "C16/Session/body-is-concatenation-of-sent-encodings")
 	} else {
-		verifAssert(len(body) <= len(want)+64 && (len(body) >= len(want) && body[:len(want)] == want), "C16/Session/body-starts-with-all-fully-sent-messages")
+		verifAssert(len(body) >= len(wantPre) && body[:len(wantPre)] == wantPre, "C16/Session/body-starts-with-all-fully-sent-messages")
 	}
 	if body != "" {
 		verifCover("C16/Session/body-written")
